@@ -13,16 +13,18 @@ func (t Token) Discard() bool { return t.Ty%2 == 0 }
 
 // Node is embedded in every per-rule result type.
 type Node struct {
-	ID   int // id of the action call that produced it (0-based)
-	NTok int // number of leaves (tokens / errors) below it
+	ID   int  // id of the action call that produced it (0-based)
+	NTok int  // number of leaves (tokens / errors) below it
+	Made bool // set by Rec.Act: distinguishes a produced value from the zero value when results are struct values
 }
 
 // Val is an abstract rendering of an action argument.
-//   K = "t" token (I = input index, Ty = terminal)
-//   K = "n" node (I = node id)
-//   K = "l" list (L = elements)
-//   K = "z" zero value
-//   K = "x" Error (I = index of the offending token, Exp = expected terminals)
+//
+//	K = "t" token (I = input index, Ty = terminal)
+//	K = "n" node (I = node id)
+//	K = "l" list (L = elements)
+//	K = "z" zero value
+//	K = "x" Error (I = index of the offending token, Exp = expected terminals)
 type Val struct {
 	K   string `json:"k"`
 	I   int    `json:"i"`
@@ -44,6 +46,15 @@ func NodeVal(n *Node) Val {
 	}
 	return Val{K: "n", I: n.ID, N: n.NTok, L: []Val{}, Exp: []int{}}
 }
+
+// NodeValV renders a result that is a struct *value* (not a pointer): the zero value is "z".
+func NodeValV(n Node) Val {
+	if !n.Made {
+		return Val{K: "z", L: []Val{}, Exp: []int{}}
+	}
+	return Val{K: "n", I: n.ID, N: n.NTok, L: []Val{}, Exp: []int{}}
+}
+
 func ErrVal(t Token, exp []int) Val {
 	e := append([]int{}, exp...)
 	return Val{K: "x", I: t.Idx, Ty: t.Ty, Exp: e, N: 1, L: []Val{}}
@@ -60,27 +71,28 @@ func ListVal(vs []Val) Val {
 }
 
 type Event struct {
-	E    string `json:"e"`            // read | act | bounds | ret
-	I    int    `json:"i"`            // read: input index ; bounds: begin idx
-	Ty   int    `json:"ty"`           // read: terminal returned
-	St   int    `json:"st"`           // read: top-of-stack state when visible, else -1
-	Dep  int    `json:"dep"`          // read: stack depth when visible, else -1
-	M    int    `json:"m"`            // act: method id
-	Args []Val  `json:"args"`         // act
-	Ret  int    `json:"ret"`          // act: node id
-	V    Val    `json:"v"`            // bounds: value
-	End  int    `json:"end"`          // bounds: end idx
-	Ok   bool   `json:"ok"`           // ret
+	E    string `json:"e"`    // read | act | bounds | ret
+	I    int    `json:"i"`    // read: input index ; bounds: begin idx
+	Ty   int    `json:"ty"`   // read: terminal returned
+	St   int    `json:"st"`   // read: top-of-stack state when visible, else -1
+	Dep  int    `json:"dep"`  // read: stack depth when visible, else -1
+	M    int    `json:"m"`    // act: method id
+	Args []Val  `json:"args"` // act
+	Ret  int    `json:"ret"`  // act: node id
+	V    Val    `json:"v"`    // bounds: value
+	End  int    `json:"end"`  // bounds: end idx
+	Ok   bool   `json:"ok"`   // ret
 }
 
 type Budget struct{ Msg string }
 
 // Rec records one parse run.
 type Rec struct {
-	Events  []Event
-	NextID  int
-	Calls   int
-	MaxCall int
+	toks     []int // terminal of the token with index i, as handed out by the lexer
+	Events   []Event
+	NextID   int
+	Calls    int
+	MaxCall  int
 	Progress *int64
 }
 
@@ -96,12 +108,16 @@ func (r *Rec) tick() {
 
 func (r *Rec) Read(t Token, st, dep int) {
 	r.tick()
+	if t.Idx == len(r.toks) {
+		r.toks = append(r.toks, t.Ty)
+	}
 	r.Events = append(r.Events, Event{E: "read", I: t.Idx, Ty: t.Ty, St: st, Dep: dep, Args: []Val{}})
 }
 
 func (r *Rec) Act(m int, n *Node, args ...Val) {
 	r.tick()
 	n.ID = r.NextID
+	n.Made = true
 	r.NextID++
 	for _, a := range args {
 		n.NTok += a.N
@@ -114,7 +130,16 @@ func (r *Rec) Act(m int, n *Node, args ...Val) {
 
 func (r *Rec) Bounds(v Val, b, e Token) {
 	r.tick()
-	r.Events = append(r.Events, Event{E: "bounds", V: v, I: b.Idx, End: e.Idx, Args: []Val{}})
+	r.Events = append(r.Events, Event{E: "bounds", V: v, I: r.handedOut(b), End: r.handedOut(e), Args: []Val{}})
+}
+
+// handedOut returns the index of a token the lexer handed out; a token value that is not one of them (the zero Token,
+// a token with another terminal at that index) is rendered as an impossible index so that the comparison sees it.
+func (r *Rec) handedOut(t Token) int {
+	if t.Idx >= 0 && t.Idx < len(r.toks) && r.toks[t.Idx] == t.Ty {
+		return t.Idx
+	}
+	return -1000 - t.Idx
 }
 
 func (r *Rec) Return(ok bool) {
@@ -153,10 +178,10 @@ func (l *SliceLexer) ReadToken() (Token, int) {
 
 // RunResult is what a subject's Run returns.
 type RunResult struct {
-	Ok       bool    `json:"ok"`
-	Panic    string  `json:"panic"`
-	Budget   bool    `json:"budget"`
-	Events   []Event `json:"events"`
+	Ok     bool    `json:"ok"`
+	Panic  string  `json:"panic"`
+	Budget bool    `json:"budget"`
+	Events []Event `json:"events"`
 }
 
 // PanicString renders a recovered panic value without importing fmt.
